@@ -23,14 +23,15 @@ Definition make_buffered (k count size : Z) : MX Z :=
          then catch (check_setup S_GETSOCKOPT (s_fd s) ;;; ret RCVBUF_DEFAULT)
                     (fun e => sys_close (s_fd s) ;;; put_sock k (s <| s_open := false |>) ;;; throw e)
          else ret size) ;;
-  put_sock k (s <| s_buffered := true |> <| s_rxsize := rx |> <| s_pool := pool_new 0 count rx |>) ;;;
+  pl <- fresh_pool count rx ;;
+  put_sock k (s <| s_buffered := true |> <| s_rxsize := rx |> <| s_pool := pl |>) ;;;
   ret rx.
 
 (* break the promises of queued sends and hand their buffers back (destruction of the send queue) *)
 Fixpoint drop_sendq (q : list (Z * Z * Z * Z)) : MX unit :=
   match q with
   | [] => ret tt
-  | (f, owner, id, _) :: t => resolve f 3 [] ;;; release_if_held owner id ;;; drop_sendq t
+  | (f, owner, id, _) :: t => resolve f 3 [] ;;; precycle owner id ;;; drop_sendq t
   end.
 
 (* destructor of any socket object *)
@@ -54,8 +55,8 @@ Definition make_async (k h1 h2 : Z) : MX unit :=
     put_sock k (s <| s_async := true |> <| s_h1 := h1 |> <| s_h2 := h2 |>) ;;; async_register k (s_fd s)
   else
     (* acceptor: buffered impl without receive buffers, register, then listen; unregister + close if listen fails *)
-    put_sock k (s <| s_async := true |> <| s_h1 := h1 |> <| s_buffered := true |> <| s_rxsize := 1 |>
-                  <| s_pool := pool_new 0 0 1 |>) ;;;
+    pl <- fresh_pool 0 1 ;;
+    put_sock k (s <| s_async := true |> <| s_h1 := h1 |> <| s_buffered := true |> <| s_rxsize := 1 |> <| s_pool := pl |>) ;;;
     async_register k (s_fd s) ;;;
     catch (check_setup S_LISTEN (s_fd s)) (fun e => destroy_sock k ;;; throw e).
 
@@ -71,6 +72,16 @@ Definition async_send (k p size dst : Z) : MX (list Z) :=
   (if was_empty then async_want_send (s_fd s) else ret tt) ;;;
   ret [f].
 
+Fixpoint release_all (names : list (Z * Z)) : MX unit :=
+  match names with
+  | [] => ret tt
+  | (o, i) :: t => release_if_held o i ;;; release_all t
+  end.
+
+(* a scenario key is reused: the object it named before is destroyed first *)
+Definition fresh_key (k : Z) : MX unit :=
+  x <- get_ext ;; match aget k (x_socks x) with Some _ => destroy_sock k | None => ret tt end.
+
 Definition drv_alive : MX driver := d <- get_driver ;; if d_alive d then ret d else bad 130.
 
 (* ---- operations that may appear at top level and inside blocks (tasks / handlers) ----------------------- *)
@@ -79,9 +90,9 @@ Definition run_simple_op (r : raw) : MX unit :=
   let a0 := nthZ a 0 in let a1 := nthZ a 1 in let a2 := nthZ a 2 in let a3 := nthZ a 3 in let a4 := nthZ a 4 in
   match opc with
   (* 10 POOL_NEW p n reserve *)
-  | 10 => x <- get_ext ;; put_ext (x <| x_pools := aset a0 (pool_new 0 a1 a2) (x_pools x) |>) ;;; report_ok opc []
+  | 10 => pl <- fresh_pool a1 a2 ;; x <- get_ext ;; put_ext (x <| x_pools := aset a0 pl (x_pools x) |>) ;;; report_ok opc []
   (* 11 POOL_GET p reserve  -> name size capok *)
-  | 11 => api opc (b <- pget a0 ;; n <- name_of a0 (b_id b) ;; ret [n; b_size b; capok a1 (b_cap b)])
+  | 11 => api opc (b <- pget a0 ;; hold a0 (b_id b) ;;; n <- name_of a0 (b_id b) ;; ret [n; b_size b; capok a1 (b_cap b)])
   (* 12 BUF_RELEASE name : drop the BufferPtr if the user still holds it (no-op otherwise, also for unknown names) *)
   | 12 => api opc (x <- get_ext ;;
                    match nth_error (x_names x) (Z.to_nat a0) with
@@ -91,13 +102,15 @@ Definition run_simple_op (r : raw) : MX unit :=
   (* 13 BUF_RESIZE name n : the user resizes a buffer it holds *)
   | 13 => api opc (x <- get_ext ;;
                    match nth_error (x_names x) (Z.to_nat a0) with
-                   | Some oi => (if 0 <=? a0 then presize (fst oi) (snd oi) a1 else ret tt) ;;; ret []
+                   | Some oi => (if (0 <=? a0) && is_held (fst oi) (snd oi) (x_held x) then presize (fst oi) (snd oi) a1 else ret tt) ;;; ret []
                    | None => ret []
                    end)
+  (* 14 RELEASE_ALL : the user drops every BufferPtr it holds (in order of buffer names) *)
+  | 14 => x <- get_ext ;; api opc (release_all (x_names x) ;;; ret [])
   (* 20 TCP_NEW s / 21 UDP_NEW s / 22 ACC_NEW s *)
-  | 20 => api opc (fd <- tcp_client_new ;; put_sock a0 (new_sock fd 1 <| s_peer := 100 + a0 |>) ;;; ret [])
-  | 21 => api opc (fd <- udp_new ;; put_sock a0 (new_sock fd 2) ;;; ret [])
-  | 22 => api opc (fd <- acceptor_new ;; put_sock a0 (new_sock fd 3) ;;; ret [])
+  | 20 => fresh_key a0 ;;; api opc (fd <- tcp_client_new ;; put_sock a0 (new_sock fd 1 <| s_peer := 100 + a0 |>) ;;; ret [])
+  | 21 => fresh_key a0 ;;; api opc (fd <- udp_new ;; put_sock a0 (new_sock fd 2) ;;; ret [])
+  | 22 => fresh_key a0 ;;; api opc (fd <- acceptor_new ;; put_sock a0 (new_sock fd 3) ;;; ret [])
   (* 23 TCP_SEND s size timeout -> n *)
   | 23 => s <- open_sock a0 1 ;; api opc (n <- sock_send (s_fd s) a1 a2 ;; ret [n])
   (* 24 TCP_RECV s size timeout -> n | -1 *)
@@ -110,7 +123,7 @@ Definition run_simple_op (r : raw) : MX unit :=
           api opc (r <- sock_recvfrom (s_fd s) a1 a2 ;;
                    ret (match r with Some (n, src) => [n; src] | None => [-1] end))
   (* 27 ACC_LISTEN s timeout news -> 1 peer | 0 *)
-  | 27 => s <- open_sock a0 3 ;;
+  | 27 => s <- open_sock a0 3 ;; fresh_key a2 ;;;
           api opc (r <- acceptor_listen (s_fd s) a1 ;;
                    match r with
                    | Some (cfd, peer) => put_sock a2 (new_sock cfd 1 <| s_peer := peer |>) ;;; ret [1; peer]
@@ -126,7 +139,7 @@ Definition run_simple_op (r : raw) : MX unit :=
           api opc (r <- buffered_receive (fun x => owner_pool x (1000 + a0)) (set_owner_pool (1000 + a0))
                                          (s_fd s) (s_rxsize s) a1 ;;
                    match r with
-                   | Some (id, n) => nm <- name_of (1000 + a0) id ;; ret [nm; n]
+                   | Some (id, n) => hold (1000 + a0) id ;;; nm <- name_of (1000 + a0) id ;; ret [nm; n]
                    | None => ret [-1]
                    end)
   (* 33 BUF_RECVFROM s timeout -> name size src | -1 *)
@@ -134,7 +147,7 @@ Definition run_simple_op (r : raw) : MX unit :=
           api opc (r <- buffered_recvfrom (fun x => owner_pool x (1000 + a0)) (set_owner_pool (1000 + a0))
                                           (s_fd s) (s_rxsize s) a1 ;;
                    match r with
-                   | Some (id, n, src) => nm <- name_of (1000 + a0) id ;; ret [nm; n; src]
+                   | Some (id, n, src) => hold (1000 + a0) id ;;; nm <- name_of (1000 + a0) id ;; ret [nm; n; src]
                    | None => ret [-1]
                    end)
   (* 43 STOP *)
@@ -158,11 +171,16 @@ Definition run_simple_op (r : raw) : MX unit :=
           | None => report_ok opc [0]
           | Some (cfd, peer) =>
               put_ext (x <| x_acc := None |>) ;;;
+              fresh_key a0 ;;;
               put_sock a0 (new_sock cfd 1 <| s_peer := peer |>) ;;;
               api opc (_ <- make_buffered a0 a1 a2 ;; make_async a0 a3 a4 ;;; ret [1])
           end
   (* 64 HOLD : inside a receive handler — keep the buffer *)
-  | 64 => x <- get_ext ;; put_ext (x <| x_arg := None |>) ;;; report_ok opc []
+  | 64 => x <- get_ext ;;
+          match x_arg x with
+          | Some (o, i) => put_ext (x <| x_arg := None |>) ;;; hold o i
+          | None => ret tt
+          end ;;; report_ok opc []
   (* 95 THROW kind : the running task / handler throws (1 std::runtime_error, 2 std::logic_error) *)
   | 95 => if a0 =? 1 then throw (SysErr 0) else throw (LogicErr 99)
   | _ => bad 100
